@@ -510,6 +510,8 @@ class Fn:
                 if nm == "debug_assert":
                     raise Unsupported("debug_assert (profile dependent)")
                 return s.expr(e["args"][0], K(lambda a, t: Bind(None, Op("assert_ %s" % paren(a)), krest())))
+            if nm == "write":
+                raise Unsupported("write! in statement position")
             raise Unsupported("macro " + nm)
         if k == "For":
             return s.for_loop(e, krest)
@@ -1169,7 +1171,52 @@ class Fn:
         return s.expr(e["e"], K(lambda a, t: s.expr(e["len"], K(lambda n, _t: k("repeat %s (Z.to_nat %s)" % (paren(a), paren(n)), ("array",))))))
 
     def e_Macro(s, e, k, hint):
+        if e["path"][-1] == "write" and s.cfg.get("fmt_fn"):
+            return s.write_macro(e, k)
         return s.stmt(e, lambda: k("tt", "unit"))
+
+    def write_macro(s, e, k):
+        """write!(f, "literal {} literal", args..) in a Display/Debug impl: the value is the formatted text (String = its bytes).
+        `{}` of an unsigned integer is its decimal form (`dec`), of a String the string; `{{` and `}}` are braces."""
+        args = e["args"]
+        if len(args) < 2 or args[1]["k"] != "Lit" or args[1]["lit"]["k"] != "Str":
+            raise Unsupported("write! without a literal format string")
+        fmt = bytes(int(b) for b in args[1]["lit"]["bytes"]).decode("utf-8")
+        pieces, cur, i, holes = [], "", 0, 0
+        while i < len(fmt):
+            c = fmt[i]
+            if c == "{" and fmt[i:i + 2] == "{{":
+                cur += "{"; i += 2
+            elif c == "}" and fmt[i:i + 2] == "}}":
+                cur += "}"; i += 2
+            elif c == "{" and fmt[i:i + 2] == "{}":
+                pieces.append(cur); cur = ""; holes += 1; i += 2
+            elif c in "{}":
+                raise Unsupported("format specifier in write!")
+            else:
+                cur += c; i += 1
+        pieces.append(cur)
+        if holes != len(args) - 2:
+            raise Unsupported("write!: %d holes, %d arguments" % (holes, len(args) - 2))
+        def lit(p):
+            return "[" + ";".join(str(b) for b in p.encode("utf-8")) + "]"
+        def go(j, acc):
+            if j == holes:
+                parts = []
+                for n, p in enumerate(pieces):
+                    if p:
+                        parts.append(lit(p))
+                    if n < holes:
+                        parts.append(acc[n])
+                return k(" ++ ".join(parts) if parts else "[]", ("string",))
+            def with_a(a, t):
+                if t in ("usize", "u64", "u8", "int"):
+                    return go(j + 1, acc + ["dec %s" % paren(a)])
+                if t in (("string",), ("slice",)):
+                    return go(j + 1, acc + [paren(a)])
+                raise Unsupported("write!: {} of %s" % (t,))
+            return s.expr(args[2 + j], K(with_a))
+        return go(0, [])
 
     def e_Assign(s, e, k, hint):
         return s.stmt(e, lambda: k("tt", "unit"))
